@@ -175,6 +175,64 @@ def run_case(res, r, wd, case):
     return run, verdict
 
 
+def z3_case(res, r, wd):
+    """A slice with a real solver as the command: the (exit, stdout, stderr)
+    of /usr/bin/z3 on the output must equal those on the input."""
+    import subprocess
+    z3 = '/usr/bin/z3'
+    if not os.path.exists(z3):
+        return
+    th = ['core'] + r.sample(['ints', 'bv', 'uf', 'let', 'defs', 'dt'],
+                             r.randint(1, 3))
+    s = workload.small_script(r, r.choice(['tiny', 'small']), theories=th)
+    nested = [c for c in s.nested() if c[0] not in ('get-model', 'exit',
+                                                    'check-sat-assuming')]
+    if ['check-sat'] not in nested:
+        nested.append(['check-sat'])
+    text = refreader.render(nested)
+    os.makedirs(wd, exist_ok=True)
+    strat = r.choice(workload.STRATEGIES)
+    opts = ['--strategy', strat, '-j', str(r.choice([1, 4])), '--timeout',
+            '10'] + workload.format_options(r)
+    run = realrun.run_ddsmt(wd, text, ['all => exit=0'], opts=opts,
+                            cmd_override=[z3, '-T:5'], timeout=600)
+    res.count('evaluations')
+    res.count('z3_runs')
+    if run.timed_out or run.rc != 0:
+        res.count('z3_runs_failed')
+        return
+
+    def z3run(path):
+        p = subprocess.run([z3, '-T:5', path], capture_output=True,
+                           timeout=60)
+        # positions in z3's messages depend on the layout of the file, not
+        # on its tokens (ddSMT tests the compact rendering, the output file
+        # may be pretty-printed or wrapped): normalise them
+        import re
+        norm = lambda b: re.sub(r'line \d+ column \d+', 'line L column C',  # noqa
+                                b.decode())
+        return (p.returncode, norm(p.stdout), norm(p.stderr))
+
+    golden = z3run(run.infile)
+    if not run.infile_unchanged:
+        res.violation('input-file-modified', 'input modified', {})
+    if run.out_bytes is None:
+        res.count('z3_runs_without_output')
+        return
+    got = z3run(run.outfile)
+    res.count('z3_runs_with_output')
+    if got != golden:
+        res.violation(
+            classify(run, 'output-does-not-reproduce-golden:z3'),
+            f'z3 on the output gives {got!r}, on the input {golden!r}', {
+                'input': text,
+                'output': run.out_bytes.decode('utf-8', 'replace')[:2000],
+                'opts': opts
+            })
+    elif len(run.out_bytes) < len(text.encode()):
+        res.add_distinct(common.digest('z3' + text + repr(opts)))
+
+
 def shard(args):
     res = common.ShardResult()
     r = common.rng('c01', args['shard'])
@@ -198,6 +256,10 @@ def shard(args):
                     'verdict': verdict
                 })
             shutil.rmtree(wd, ignore_errors=True)
+        for i in range(args.get('z3', 0)):
+            wd = os.path.join(base, f'z3_{i}')
+            z3_case(res, r, wd)
+            shutil.rmtree(wd, ignore_errors=True)
     finally:
         shutil.rmtree(base, ignore_errors=True)
     return res.to_dict()
@@ -205,7 +267,8 @@ def shard(args):
 
 def run(ctx):
     n = 10 if ctx.tier == 'quick' else 220
-    shards = [{'shard': i, 'n': n} for i in range(common.NCPU)]
+    shards = [{'shard': i, 'n': n, 'z3': 1 if ctx.tier == 'quick' else 12}
+              for i in range(common.NCPU)]
     results = common.run_shards('checks.c01', shards, timeout=3400)
     common.merge_shards(ctx, results)
     ctx.rule = (
@@ -214,6 +277,8 @@ def run(ctx):
         '(has/count/subseq/hash/ntok/depth/scoped, 2-3 behaviour classes) x '
         'strategy x -j{1,2,4,8} x {default,pretty,wrap} x comparison '
         'options x optional cross-check command x optional command delays; '
+        'plus a slice with the real /usr/bin/z3 as command (the output must '
+        'give the same exit code and streams as the input); '
         'distinct non-trivial = distinct runs with >=1 accepted and >=1 '
         'rejected candidate')
     ctx.assumptions = [
